@@ -16,6 +16,7 @@ import (
 	"reflect"
 	"strconv"
 	"time"
+	_ "time/tzdata"
 	"unicode/utf16"
 
 	"github.com/SAP/go-dblib/asetime"
@@ -55,8 +56,8 @@ func nibbles(s string) []int {
 	return d
 }
 
+// civil: the date and time of day the value shows in its own location (what the library encodes)
 func civil(t time.Time) map[string]interface{} {
-	t = t.UTC()
 	return map[string]interface{}{"k": "tm", "y": t.Year(), "mo": int(t.Month()), "d": t.Day(), "h": t.Hour(), "mi": t.Minute(), "s": t.Second(), "ns": t.Nanosecond()}
 }
 
@@ -175,6 +176,30 @@ func (r *dtRun) rt(t asetypes.DataType, v interface{}, n int) {
 	r.tr.Emit(ev)
 }
 
+// xrt: written as the fixed-length type, read as its nullable variant
+func (r *dtRun) xrt(t asetypes.DataType, v interface{}, n int) {
+	nt, err := t.NullableType()
+	if err != nil {
+		return
+	}
+	r.scn("xrt-" + t.String())
+	ev := Ev{"ev": "XRT", "t": t.String(), "nt": nt.String(), "v": canon(v, false), "b": []int{}, "v2": map[string]interface{}{"k": "other", "s": "none"}, "err": ""}
+	b, e := safeBytes(t, v, int64(n))
+	if e != "" {
+		ev["err"] = "Bytes: " + e
+		r.tr.Emit(ev)
+		return
+	}
+	ev["b"] = ints(b)
+	v2, e := safeGoValue(nt, append([]byte(nil), b...))
+	if e != "" {
+		ev["err"] = "GoValue: " + e
+	} else {
+		ev["v2"] = canon(v2, false)
+	}
+	r.tr.Emit(ev)
+}
+
 // dec: harness-made bytes (what a server sends) -> GoValue
 func (r *dtRun) dec(t asetypes.DataType, b []byte) {
 	r.scn("dec-" + t.String())
@@ -220,6 +245,11 @@ func encParamFmt1(t asetypes.DataType, maxLen, prec, scale int) []byte {
 
 // pkg: the value behind its format in a PARAMFMT / PARAMS pair
 func (r *dtRun) pkg(t asetypes.DataType, v interface{}, maxLen, prec, scale int) {
+	// the same value in a pair built by the client itself, where the type's default format can hold it
+	// (a client cannot give a DECN / NUMN format its precision and scale, nor MONEYN / DATETIMEN the short width)
+	if t != asetypes.DECN && t != asetypes.NUMN && !((t == asetypes.MONEYN || t == asetypes.DATETIMEN) && maxLen == 4) {
+		r.cpkg(t, v)
+	}
 	r.scn("pkg-" + t.String())
 	uni := t == asetypes.UNITEXT
 	ev := Ev{"ev": "Pkg", "t": t.String(), "n": maxLen, "prec": prec, "scale": scale, "v": canon(v, uni), "w": "none", "pb": []int{}, "r": "none",
@@ -268,6 +298,146 @@ func (r *dtRun) pkg(t asetypes.DataType, v interface{}, maxLen, prec, scale int)
 	}
 }
 
+// cpkg: the value in a PARAMFMT / PARAMS pair built by the client itself (LookupFieldFmtData), both
+// packages written by the library and read back by it
+func (r *dtRun) cpkg(t asetypes.DataType, v interface{}) {
+	r.scn("cpkg-" + t.String())
+	uni := t == asetypes.UNITEXT
+	ev := Ev{"ev": "Pkg", "client": true, "t": t.String(), "n": 0, "prec": 0, "scale": 0, "v": canon(v, uni), "w": "none", "pb": []int{}, "r": "none",
+		"v2": map[string]interface{}{"k": "other", "s": "none"}}
+	defer func() { r.tr.Emit(ev) }()
+	ff, fd, err := tds.LookupFieldFmtData(t)
+	if err != nil {
+		ev["w"] = "lookup-err"
+		return
+	}
+	if d, ok := v.(*asetypes.Decimal); ok && d != nil {
+		ev["prec"], ev["scale"] = d.Precision, d.Scale
+	}
+	fd.SetValue(v)
+	fpkg := tds.NewParamFmtPackage(false, ff)
+	fb, fst := writeBytes(fpkg)
+	if fst != "ok" || len(fb) < 2 {
+		ev["w"] = "format-" + fst
+		return
+	}
+	ppkg := tds.NewParamsPackage(fd)
+	if err := ppkg.LastPkg(fpkg); err != nil {
+		ev["w"] = "lastpkg-err"
+		return
+	}
+	pb, pst := writeBytes(ppkg)
+	ev["w"] = pst
+	if pst != "ok" {
+		return
+	}
+	ev["pb"] = ints(pb)
+	back, _ := tds.LookupPackage(tds.TDS_PARAMFMT)
+	if st, _ := readPkg(back, fb[1:]); st != "ok" {
+		ev["r"] = "format-" + st
+		return
+	}
+	if fs := back.(*tds.ParamFmtPackage).Fmts; len(fs) == 1 {
+		ev["n"] = int(fs[0].MaxLength())
+	}
+	rp, _ := tds.LookupPackage(tds.TDS_PARAMS)
+	if err := rp.(tds.LastPkgAcceptor).LastPkg(back); err != nil {
+		ev["r"] = "lastpkg-err"
+		return
+	}
+	st, _ := readPkg(rp, pb[1:])
+	ev["r"] = st
+	if st == "ok" {
+		if dfs := rp.(*tds.ParamsPackage).DataFields; len(dfs) == 1 {
+			ev["v2"] = canon(dfs[0].Value(), uni)
+		}
+	}
+}
+
+// rows: several values of one column travelling one after the other behind one format - a ROWFMT2 with
+// ROW packages, or a PARAMFMT with PARAMS packages - chained the way the channel chains them (every
+// data package gets its predecessor as the last package); the values are looked at when all have been read
+func (r *dtRun) rows(t asetypes.DataType, vs []interface{}, maxLen, prec, scale int, asRow bool) {
+	r.scn("rows-" + t.String())
+	uni := t == asetypes.UNITEXT
+	cvs := []map[string]interface{}{}
+	for _, v := range vs {
+		cvs = append(cvs, canon(v, uni))
+	}
+	ev := Ev{"ev": "Rows", "t": t.String(), "row": asRow, "vs": cvs, "v2s": []map[string]interface{}{}, "r": "none"}
+	defer func() { r.tr.Emit(ev) }()
+	col := fcol{Dt: int(t), MaxLen: maxLen, Prec: prec, Scale: scale, Name: []int{}, Locale: []int{}, Label: []int{}, Catalogue: []int{}, Schema: []int{}, Table: []int{}, TableName: []int{}}
+	ftok, dtok := tokParamFmt, tokParams
+	fT, dT := tds.TDS_PARAMFMT, tds.TDS_PARAMS
+	if asRow {
+		ftok, dtok = tokRowFmt2, tokRow
+		fT, dT = tds.TDS_ROWFMT2, tds.TDS_ROW
+	}
+	hb := encFcols(ftok, []fcol{col}, asRow, asRow)
+	fpkg, _ := tds.LookupPackage(fT)
+	if st, _ := readPkg(fpkg, hb[1:]); st != "ok" {
+		ev["r"] = "format-" + st
+		return
+	}
+	var prev tds.Package = fpkg
+	var pkgs []tds.Package
+	for _, v := range vs {
+		data, e := safeBytes(t, v, int64(maxLen))
+		if e != "" {
+			ev["r"] = "bytes-err"
+			return
+		}
+		w := &wbuf{}
+		w.u8(dtok)
+		switch t.LengthBytes() {
+		case 1:
+			w.u8(len(data))
+		case 4:
+			w.u32(uint32(len(data)))
+		}
+		w.raw(data)
+		dp, _ := tds.LookupPackage(dT)
+		if err := dp.(tds.LastPkgAcceptor).LastPkg(prev); err != nil {
+			ev["r"] = "lastpkg-err"
+			return
+		}
+		if st, _ := readPkg(dp, w.b[1:]); st != "ok" {
+			ev["r"] = "data-" + st
+			return
+		}
+		pkgs = append(pkgs, dp)
+		prev = dp
+	}
+	out := []map[string]interface{}{}
+	for _, dp := range pkgs {
+		var dfs []tds.FieldData
+		switch p := dp.(type) {
+		case *tds.ParamsPackage:
+			dfs = p.DataFields
+		case *tds.RowPackage:
+			dfs = p.DataFields
+		}
+		if len(dfs) != 1 {
+			ev["r"] = "fields"
+			return
+		}
+		out = append(out, canon(dfs[0].Value(), uni))
+	}
+	ev["v2s"], ev["r"] = out, "ok"
+}
+
+// nullBack: what GoValue returns for a value of length zero goes back into Bytes
+func (r *dtRun) nullBack(t asetypes.DataType) {
+	r.scn("nullback")
+	v, e := safeGoValue(t, []byte{})
+	ev := Ev{"ev": "NullBack", "t": t.String(), "b": []int{}, "err": e}
+	if e == "" {
+		b, e2 := safeBytes(t, v, 8)
+		ev["err"], ev["b"] = e2, ints(b)
+	}
+	r.tr.Emit(ev)
+}
+
 func (r *dtRun) cal(fn string, v map[string]interface{}, b []byte, e string) {
 	r.scn("cal-" + fn)
 	r.tr.Emit(Ev{"ev": "Cal", "fn": fn, "v": v, "b": ints(b), "err": e})
@@ -286,6 +456,7 @@ func (r *dtRun) calDay(t time.Time) {
 		r.cal("U2T", civil(back), le.AppendUint64(nil, us), "")
 		d := asetime.DurationFromDateTime(t)
 		r.cal("DFDT", civil(t), le.AppendUint64(nil, uint64(int64(d))), "")
+		r.cal("DFT", civil(t), le.AppendUint64(nil, uint64(int64(asetime.DurationFromTime(t)))), "")
 	}()
 }
 
@@ -469,6 +640,13 @@ func (r *dtRun) all() {
 		r.rt(asetypes.UINT8, uint64(x), 8)
 		r.rt(asetypes.INTN, x, 8)
 		r.rt(asetypes.UINTN, uint64(x), 8)
+		r.xrt(asetypes.INT1, uint8(x), 1)
+		r.xrt(asetypes.INT2, int16(x), 2)
+		r.xrt(asetypes.INT4, int32(x), 4)
+		r.xrt(asetypes.INT8, x, 8)
+		r.xrt(asetypes.UINT2, uint16(x), 2)
+		r.xrt(asetypes.UINT4, uint32(x), 4)
+		r.xrt(asetypes.UINT8, uint64(x), 8)
 		switch i % 4 {
 		case 0:
 			r.pkg(asetypes.INT4, int32(x), 4, 0, 0)
@@ -494,6 +672,29 @@ func (r *dtRun) all() {
 		r.dec(asetypes.INT8, b)
 		r.dec(asetypes.UINT8, b)
 		r.dec(asetypes.INT2, b[:2])
+	}
+	for i := 0; i < r.count(12, 200); i++ {
+		k := 2 + r.rng.Intn(3)
+		var a, c, d, e []interface{}
+		for j := 0; j < k; j++ {
+			x := r.pickInt64()
+			a = append(a, int32(x))
+			c = append(c, x)
+			d = append(d, string(toBytes(randText(r.rng, 1+r.rng.Intn(20)))))
+			e = append(e, r.dayRange(date(1, 1, 1), date(9999, 12, 31)).Add(r.tod("us")))
+		}
+		asRow := i%2 == 0
+		r.rows(asetypes.INT4, a, 4, 0, 0, asRow)
+		r.rows(asetypes.INTN, c, 8, 0, 0, asRow)
+		r.rows(asetypes.VARCHAR, d, 255, 0, 0, asRow)
+		r.rows(asetypes.BIGDATETIMEN, e, 8, 0, 0, asRow)
+		var f []interface{}
+		for j := 0; j < k; j++ {
+			if dd := r.mkDecimal(12, 3); dd != nil {
+				f = append(f, dd)
+			}
+		}
+		r.rows(asetypes.NUMN, f, 33, 12, 3, asRow)
 	}
 	// --- bit ---
 	for _, v := range []bool{false, true} {
@@ -521,6 +722,8 @@ func (r *dtRun) all() {
 		}
 		g := math.Float32frombits(b32)
 		r.rt(asetypes.FLT4, g, 4)
+		r.xrt(asetypes.FLT4, g, 4)
+		r.xrt(asetypes.FLT8, f, 8)
 		if i%3 == 0 {
 			r.pkg(asetypes.FLT8, f, 8, 0, 0)
 			r.pkg(asetypes.FLT4, g, 4, 0, 0)
@@ -531,6 +734,33 @@ func (r *dtRun) all() {
 		r.dec(asetypes.FLTN, le.AppendUint64(nil, b64))
 		r.dec(asetypes.FLTN, le.AppendUint32(nil, b32))
 	}
+	// every boundary pattern, and NaNs of both kinds (quiet bit clear / set) with random payloads
+	for _, b32 := range []uint32{0, 1 << 31, 0x7f800000, 0xff800000, 0x7fc00000, 0x7fc00001, 0x7f800001, 0x7fa00000, 0xffa00000, 0x7fbfffff, 0xffc00000, 1, 0x007fffff, 0x00800000, 0x7f7fffff, 0x3f800000} {
+		g := math.Float32frombits(b32)
+		r.rt(asetypes.FLT4, g, 4)
+		r.xrt(asetypes.FLT4, g, 4)
+		r.pkg(asetypes.FLT4, g, 4, 0, 0)
+		r.dec(asetypes.FLT4, le.AppendUint32(nil, b32))
+		r.dec(asetypes.FLTN, le.AppendUint32(nil, b32))
+	}
+	for _, b64 := range []uint64{0, 1 << 63, 0x7ff0000000000000, 0xfff0000000000000, 0x7ff8000000000000, 0x7ff8000000000001, 0x7ff0000000000001, 0x7ff4000000000000, 0xfff4000000000000, 0x7ff7ffffffffffff,
+		1, 0x000fffffffffffff, 0x0010000000000000, 0x7fefffffffffffff, 0x3ff0000000000000} {
+		f := math.Float64frombits(b64)
+		r.rt(asetypes.FLT8, f, 8)
+		r.rt(asetypes.FLTN, f, 8)
+		r.xrt(asetypes.FLT8, f, 8)
+		r.pkg(asetypes.FLT8, f, 8, 0, 0)
+		r.pkg(asetypes.FLTN, f, 8, 0, 0)
+		r.dec(asetypes.FLT8, le.AppendUint64(nil, b64))
+	}
+	for i := 0; i < r.count(20, 400); i++ {
+		b32 := 0x7f800000 | uint32(r.rng.Intn(2))<<31 | (1 + uint32(r.rng.Intn(0x7fffff)))
+		b64 := 0x7ff0000000000000 | uint64(r.rng.Intn(2))<<63 | (1 + uint64(r.rng.Int63n(0xfffffffffffff)))
+		r.rt(asetypes.FLT4, math.Float32frombits(b32), 4)
+		r.rt(asetypes.FLT8, math.Float64frombits(b64), 8)
+		r.pkg(asetypes.FLT4, math.Float32frombits(b32), 4, 0, 0)
+		r.dec(asetypes.FLT4, le.AppendUint32(nil, b32))
+	}
 	// --- money ---
 	for i := 0; i < r.count(150, 4000); i++ {
 		x := r.pickInt64()
@@ -538,6 +768,8 @@ func (r *dtRun) all() {
 		r.rt(asetypes.MONEYN, mkMoney(asetypes.ASEMoneyPrecision, asetypes.ASEMoneyScale, x), 8)
 		r.rt(asetypes.SHORTMONEY, mkMoney(asetypes.ASEShortMoneyPrecision, asetypes.ASEShortMoneyScale, int64(int32(x))), 4)
 		r.rt(asetypes.MONEYN, mkMoney(asetypes.ASEShortMoneyPrecision, asetypes.ASEShortMoneyScale, int64(int32(x))), 4)
+		r.xrt(asetypes.MONEY, mkMoney(asetypes.ASEMoneyPrecision, asetypes.ASEMoneyScale, x), 8)
+		r.xrt(asetypes.SHORTMONEY, mkMoney(asetypes.ASEShortMoneyPrecision, asetypes.ASEShortMoneyScale, int64(int32(x))), 4)
 		if i%3 == 0 {
 			r.pkg(asetypes.MONEY, mkMoney(asetypes.ASEMoneyPrecision, asetypes.ASEMoneyScale, x), 8, 0, 0)
 			r.pkg(asetypes.MONEYN, mkMoney(asetypes.ASEMoneyPrecision, asetypes.ASEMoneyScale, x), 8, 0, 0)
@@ -609,6 +841,10 @@ func (r *dtRun) all() {
 		r.rt(asetypes.BIGTIMEN, date(1, 1, 1).Add(r.tod("us")), 8)
 		sd := r.someDay(sdtLo, sdtHi).Add(r.tod("min"))
 		r.rt(asetypes.SHORTDATE, sd, 4)
+		r.xrt(asetypes.SHORTDATE, sd, 4)
+		r.xrt(asetypes.DATETIME, dt, 8)
+		r.xrt(asetypes.DATE, d, 4)
+		r.xrt(asetypes.TIME, tm, 4)
 		r.rt(asetypes.DATETIMEN, r.someDay(sdtLo, sdtHi).Add(r.tod("min")), 4)
 		if i%3 == 0 {
 			r.pkg(asetypes.DATE, d, 4, 0, 0)
@@ -651,6 +887,36 @@ func (r *dtRun) all() {
 		}
 		r.dec(asetypes.BIGDATETIMEN, le.AppendUint64(nil, dayNo*86400000000+us))
 		r.dec(asetypes.BIGTIMEN, le.AppendUint64(nil, us))
+	}
+	// values that are not in UTC: the library encodes the date and time of day the value shows in its own
+	// location - also on the days on which that location's clock is changed
+	zones := []*time.Location{time.FixedZone("east", 5*3600+1800), time.FixedZone("west", -11*3600)}
+	for _, name := range []string{"Europe/Berlin", "America/New_York", "Australia/Lord_Howe", "Asia/Kolkata"} {
+		if loc, err := time.LoadLocation(name); err == nil {
+			zones = append(zones, loc)
+		}
+	}
+	changeDays := [][3]int{{2024, 3, 31}, {2024, 10, 27}, {2024, 3, 10}, {2024, 11, 3}, {2024, 4, 7}, {2024, 10, 6}, {1999, 12, 31}, {2000, 2, 29}, {1899, 12, 31}}
+	for i := 0; i < r.count(40, 600); i++ {
+		loc := zones[r.rng.Intn(len(zones))]
+		cd := changeDays[r.rng.Intn(len(changeDays))]
+		us := r.tod("us")
+		if r.rng.Intn(2) == 0 {
+			us = time.Duration(r.rng.Intn(24))*time.Hour + time.Duration(r.rng.Intn(4))*15*time.Minute
+		}
+		h, mi, sec, ns := int(us/time.Hour), int(us/time.Minute)%60, int(us/time.Second)%60, int(us%time.Second)
+		t := time.Date(cd[0], time.Month(cd[1]), cd[2], h, mi, sec, ns, loc)
+		if t.Hour() != h || t.Minute() != mi {
+			continue // a time of day that does not exist on that day in that location
+		}
+		r.rt(asetypes.BIGDATETIMEN, t, 8)
+		r.rt(asetypes.BIGTIMEN, t, 8)
+		r.rt(asetypes.DATE, t, 4)
+		tt := time.Date(cd[0], time.Month(cd[1]), cd[2], h, mi, sec, (ns/10000000)*10000000, loc)
+		r.rt(asetypes.DATETIME, tt, 8)
+		r.rt(asetypes.TIME, tt, 4)
+		r.pkg(asetypes.BIGDATETIMEN, t, 8, 0, 0)
+		r.calDay(t)
 	}
 	// --- binary and character data ---
 	for i := 0; i < r.count(60, 1500); i++ {
@@ -709,6 +975,7 @@ func (r *dtRun) all() {
 		asetypes.BIGDATETIMEN, asetypes.BIGTIMEN, asetypes.BINARY, asetypes.VARBINARY, asetypes.LONGBINARY, asetypes.CHAR, asetypes.VARCHAR, asetypes.LONGCHAR, asetypes.TEXT, asetypes.IMAGE, asetypes.UNITEXT} {
 		r.rt(t, nil, 8)
 		r.dec(t, []byte{})
+		r.nullBack(t)
 		if t != asetypes.TEXT && t != asetypes.IMAGE && t != asetypes.UNITEXT {
 			r.pkg(t, nil, 8, 10, 2)
 		}
@@ -734,7 +1001,11 @@ func (r *dtRun) all() {
 	for i := 0; i < 256; i++ {
 		t := asetypes.DataType(i)
 		r.scn("tab")
-		r.tr.Emit(Ev{"ev": "Tab", "t": t.String(), "size": t.ByteSize(), "lb": t.LengthBytes()})
+		nts := ""
+		if nt, err := t.NullableType(); err == nil {
+			nts = nt.String()
+		}
+		r.tr.Emit(Ev{"ev": "Tab", "t": t.String(), "size": t.ByteSize(), "lb": t.LengthBytes(), "nt": nts})
 	}
 }
 
